@@ -42,19 +42,115 @@ Definition table_log2 (tbl : list (Q * Q)) (d : Q) : Q :=
 Definition vRow (r : row) : val :=
   let '(c, lo, hi, g, d, l) := r in VL [VS c; VZ lo; VZ hi; VS g; VQ (Qred d); VQ (Qred l)].
 
-(* [alg; cut; k; reads; bins; log2 table]: k = 0 whole file, k >= 1 chunks of k lines *)
+(* [alg; cut; k; reads; bins; log2 table]: k = 0 whole file, k >= 1 chunks of k lines.
+   The rows come in the table's order: BED order for the pileup, the sorted and
+   chromosome-grouped order (count_order; computed with the decorated sort, equal by
+   ChromsortLemmas.sort_regions_fast_eq) for --count. *)
 Definition e_c09_coverage (v : val) : val :=
   match v with
   | VL [va; VZ cut; VZ k; vreads; vbins; vtbl] =>
       match getAlgo va, getList getRead vreads, getList getBin vbins,
             getList (getPair getQ getQ) vtbl with
-      | Some alg, Some reads, Some bins, Some tbl =>
+      | Some alg, Some reads, Some bins0, Some tbl =>
+          let bins := match alg with Count => count_order_fast bins0 | Pileup => bins0 end in
           if k <? 0 then bad_input
           else if k =? 0 then VL (map vRow (coverage (table_log2 tbl) alg cut reads bins))
           else VL (map vRow (coverage_chunks (table_log2 tbl) (Z.to_nat k) alg cut reads bins))
       | _, _, _, _ => bad_input
       end
   | _ => bad_input
+  end.
+
+(* ---- text layer ---------------------------------------------------------- *)
+
+(* text -> column names, or the error class the code raises *)
+Definition e_c09_detect_cols (v : val) : val :=
+  match v with
+  | VS text =>
+      match detect_bedcov_columns (chars text) with
+      | DetectCols cols => VL (map VS cols)
+      | DetectNoNewline => VErr "ValueError"
+      | DetectBadLine => VErr "RuntimeError"
+      end
+  | _ => bad_input
+  end.
+
+Definition vParsed (p : parsed) : val :=
+  let '(c, lo, hi, g, n) := p in
+  VL [VS c; VZ lo; VZ hi; match g with Some s => VS s | None => VNone end; VZ n].
+
+(* text -> the table bedcov() reads: [chrom; start; end; gene or None; basecount] *)
+Definition e_c09_parse_bedcov (v : val) : val :=
+  match v with
+  | VS text =>
+      match parse_bedcov text with
+      | Some rows => VL (map vParsed rows)
+      | None => VErr "unparsed"
+      end
+  | _ => bad_input
+  end.
+
+(* [text; log2 table] -> the pileup table assembled from the text *)
+Definition e_c09_pileup_text (v : val) : val :=
+  match v with
+  | VL [VS text; vtbl] =>
+      match getList (getPair getQ getQ) vtbl with
+      | Some tbl =>
+          match pileup_table_of_text (table_log2 tbl) text with
+          | Some rows => VL (map vRow rows)
+          | None => VErr "unparsed"
+          end
+      | None => bad_input
+      end
+  | _ => bad_input
+  end.
+
+(* [cut; reads; bins] -> the text samtools bedcov prints for these bins *)
+Definition e_c09_bedcov_text (v : val) : val :=
+  match v with
+  | VL [VZ cut; vreads; vbins] =>
+      match getList getRead vreads, getList getBin vbins with
+      | Some reads, Some bins => VS (bedcov_of cut reads bins)
+      | _, _ => bad_input
+      end
+  | _ => bad_input
+  end.
+
+(* [cut; k; reads; bins; log2 table] -> the pileup table through the text layer, the
+   regions split into chunks of k lines (k = 0: one part) *)
+Definition e_c09_via_text (v : val) : val :=
+  match v with
+  | VL [VZ cut; VZ k; vreads; vbins; vtbl] =>
+      match getList getRead vreads, getList getBin vbins, getList (getPair getQ getQ) vtbl with
+      | Some reads, Some bins, Some tbl =>
+          if k <? 0 then bad_input
+          else match pileup_via_text (table_log2 tbl) cut reads
+                       (if k =? 0 then [bins] else chunks (Z.to_nat k) bins) with
+               | Some rows => VL (map vRow rows)
+               | None => VErr "unparsed"
+               end
+      | _, _, _ => bad_input
+      end
+  | _ => bad_input
+  end.
+
+(* [k; lines] -> the pieces parallel.to_chunks writes *)
+Definition e_c09_to_chunks_lines (v : val) : val :=
+  match getPair getZ (getList getS) v with
+  | Some (k, ls) => if k <? 1 then bad_input else VL (map (fun p => VL (map VS p)) (to_chunks_lines (Z.to_nat k) ls))
+  | None => bad_input
+  end.
+
+(* min_mapq -> the MAPQ threshold in force in the pileup algorithm (-Q only when > 0) *)
+Definition e_c09_pileup_cut (v : val) : val :=
+  match v with VZ cut => VZ (pileup_cut cut) | _ => bad_input end.
+
+(* bins -> keys of the bins in the order of the --count table *)
+Definition e_c09_count_order (v : val) : val :=
+  match getList getBin v with
+  | Some bins => VL (map (fun b : bedline => let '(c, lo, hi, rest) := b in
+                                             VL [VS c; VZ lo; VZ hi; VS (bin_name rest)]) (count_order_fast bins))
+  | None => bad_input
   end.
 
 (* [alg; cut; reads; bins] -> base counts of the model, per bin *)
